@@ -30,6 +30,10 @@ def _frames(family, which):
         if family == "daily_spiky":
             return ds.daily_frame(start="2021-01-01", days=365, tz=ZONE, wseed=seed, seed=seed, noise=0.05, spikes=6)
         return ds.daily_frame(start="2021-01-01", days=365, tz=ZONE, wseed=seed, seed=seed, noise=0.05, weekend_factor=1.2)
+    if family in ("caltrack_pacific", "caltrack_eastern"):
+        # one extract cut on UTC boundaries (the same instants for every meter of a fleet), localised to the meter's own zone
+        fr = ds.hourly_frame(start="2021-01-01", days=365, tz="UTC", wseed=seed, seed=seed)
+        return fr.tz_convert("US/Pacific" if family == "caltrack_pacific" else "US/Eastern")
     return ds.hourly_frame(start="2021-01-01", days=365, tz=ZONE, wseed=seed, seed=seed, solar=family == "hourly_solar")
 
 
@@ -70,11 +74,12 @@ def do_fit(family, which, reuse=None):
         m = m.fit(em.HourlyBaselineData(fr, is_electricity_data=True))
         rep = em.HourlyReportingData(ds.hourly_frame(start="2022-02-01", days=60, tz=ZONE, wseed=3, seed=3, solar=family == "hourly_solar"),
                                      is_electricity_data=True)
-    elif family == "caltrack":
+    elif family in ("caltrack", "caltrack_pacific", "caltrack_eastern"):
         from opendsm.eemeter.models.hourly_caltrack import HourlyBaselineData as CB, HourlyModel as CM, HourlyReportingData as CR
 
         m = CM().fit(CB(fr, is_electricity_data=True))
-        rep = CR(ds.hourly_frame(start="2022-02-01", days=45, tz=ZONE, wseed=3, seed=3), is_electricity_data=True)
+        rep = CR(ds.hourly_frame(start="2022-02-01", days=45, tz="UTC", wseed=3, seed=3).tz_convert(str(fr.index.tz)) if family != "caltrack"
+                 else ds.hourly_frame(start="2022-02-01", days=45, tz=ZONE, wseed=3, seed=3), is_electricity_data=True)
     else:
         raise ValueError(family)
     js = m.to_json()
